@@ -254,6 +254,7 @@ def run(ctx):
     directives_end_with_the_line(ctx)
     skipper_steps_over_literals(ctx)
     header_names_not_macro_expanded(ctx)
+    directive_arguments_keep_literals(ctx)
 
 
 def manifest_keys(ctx):
@@ -421,29 +422,31 @@ def directives_end_with_the_line(ctx):
     ctx.floor("R09.6", "blank-skipping loops in the directive scanners", n_loops, 3)
 
 
-def skipper_steps_over_literals(ctx):
+def _steps_over_literals(ctx, RID, short, rule_text):
     """R09.7: the text of a skipped group is still a sequence of preprocessing tokens ([cpp.cond]/6: "tokens are
     processed only so far as to keep track of nested conditionals"); a comment opener inside a string or character
     literal is not a comment.  (F-C09c: `#if 0` / `s = "/*";` / `#endif` swallowed the rest of the file.)"""
     db = ctx.db
-    ctx.rule("R09.7", "skip_false_if_block has a branch on c == '\"' || c == '\\'' that consumes the literal with get() only (never skip_comment()) up to the matching quote or the end of the line, stepping over backslash escapes")
-    sk = db.fn(P + "skip_false_if_block")
+    ctx.rule(RID, rule_text)
+    sk = db.fn(P + short)
     found = None
     for node in sk.walk():
         if node.get("k") != "if":
             continue
         consts = set()
         for atom, _ in _disjuncts(node["c"]):
-            c = G.cmp_atom(atom)
-            if c and c[0] == "==":
-                for x in (c[1], c[2]):
-                    if const_int(x) is not None:
-                        consts.add(const_int(x))
+            # a disjunct may carry further conditions (`c == '\'' && <not a digit separator>`)
+            for leaf in _conjuncts(atom):
+                c = G.cmp_atom(leaf)
+                if c and c[0] == "==":
+                    for x in (c[1], c[2]):
+                        if const_int(x) is not None:
+                            consts.add(const_int(x))
         if {34, 39} <= consts:
             found = node
             break
-    ctx.ob("R09.7", "skip_false_if_block|literal-branch", found is not None, sk.loc(found) if found else sk.loc(),
-           "a branch on both quote characters %s" % ("exists" if found else "is missing: literals in skipped text are scanned for comments"))
+    ctx.ob(RID, short + "|literal-branch", found is not None, sk.loc(found) if found else sk.loc(),
+           "a branch on both quote characters %s" % ("exists" if found else "is missing: literals are scanned for comments"))
     if found is None:
         return
     loops = [lp for lp in walk(found["then"]) if lp.get("k") in ("while", "for", "do")]
@@ -456,15 +459,30 @@ def skipper_steps_over_literals(ctx):
         ne_quote = any(c and c[0] == "!=" and ((const_int(c[1]) is None and const_int(c[2]) is None) or const_int(c[2]) in (34, 39)) for c in cmps)
         if "get" in calls and "skip_comment" not in calls and ne_quote and _ne_const(lp["c"], 10) and _ne_const(lp["c"], -1):
             good = lp
-    ctx.ob("R09.7", "skip_false_if_block|literal-branch|consumed-raw", good is not None, sk.loc(good or found),
+    ctx.ob(RID, short + "|literal-branch|consumed-raw", good is not None, sk.loc(good or found),
            "the literal's characters are read with get() until the quote, the end of the line or EOF, without looking for comments")
     if good is None:
         return
     esc = [n for n in walk(good.get("body") or {}) if n.get("k") == "if"
            and any((G.cmp_atom(a) or [None])[0] == "==" and 92 in (const_int(G.cmp_atom(a)[1]), const_int(G.cmp_atom(a)[2])) for a in _conjuncts(n["c"]))
            and any(c.get("k") == "call" and callee_short(c) == "get" for c in walk(n["then"]))]
-    ctx.ob("R09.7", "skip_false_if_block|literal-branch|escapes", bool(esc), sk.loc(esc[0]) if esc else sk.loc(good),
+    ctx.ob(RID, short + "|literal-branch|escapes", bool(esc), sk.loc(esc[0]) if esc else sk.loc(good),
            "a backslash inside the literal takes the next character with it%s" % ("" if esc else " - NOT: \"\\\"/*\" would open a comment"))
+
+
+def skipper_steps_over_literals(ctx):
+    _steps_over_literals(ctx, "R09.7", "skip_false_if_block",
+                         "skip_false_if_block has a branch on c == '\"' || c == '\\'' that consumes the literal with get() only (never skip_comment()) up to the matching quote or the end of the line, stepping over backslash escapes")
+
+
+def directive_arguments_keep_literals(ctx):
+    """R09.9: the text of a directive (#if expression, #define body, #include name) is collected by
+    get_preprocessor_args(), which strips comments.  `//` or `/*` inside a string or character literal is not a comment:
+    `#define URL "http://x"`, `#if defined(X) && "a//b"[0]`, `#include "dir//x.h"`.  Same obligation as R09.7, for the
+    collecting scanner.  (F-C08b.)"""
+    _steps_over_literals(ctx, "R09.9", "get_preprocessor_args",
+                         "get_preprocessor_args has a branch on the quote characters that copies the literal with get() only (never skip_comment()) up to the matching quote or the end of the line, honouring backslash escapes")
+
 
 
 def header_names_not_macro_expanded(ctx):
